@@ -8,7 +8,7 @@ from models import cfg as MC
 from gens import regex as GR
 
 ID = "C20"
-CASES = {"quick": 900, "thorough": 15000}
+CASES = {"quick": 5000, "thorough": 15000}
 RULE = ("seeded automata / PDAs / FSTs over a JSON-representable value pool (ints, floats, strings with spaces "
         "and non-ASCII, strings that look like the exporter's helper nodes 'starting_*' / 'INITIAL_STACK_HIDDEN'), "
         "epsilon transitions, several start states, parallel edges, multi-symbol pushes/outputs; seeded grammars "
